@@ -42,6 +42,7 @@ type World struct {
 	SitePct    int           // percent of lock sites active in this run
 	yieldOff   bool
 	spin       map[uint64]*spinState
+	parked     map[string]int // node -> goroutines currently parked at a yield point
 	DisabledSites map[string]bool
 }
 
@@ -66,7 +67,7 @@ func (p simGrpcProvider) StartGrpcServer(name, bindAddress string, registerFunc 
 
 func NewWorld(r *Run, cfg NetConfig) *World {
 	w := &World{R: r, Net: NewNet(r, cfg), Root: newScratchDir("world"), byTag: map[uint64]*Endpoint{}, Nodes: map[string]*SimNode{},
-		incs: map[string]int{}, spin: map[uint64]*spinState{}, yieldOrd: map[string]int64{}, siteCache: map[uintptr]string{}, DisabledSites: map[string]bool{}}
+		incs: map[string]int{}, spin: map[uint64]*spinState{}, parked: map[string]int{}, yieldOrd: map[string]int64{}, siteCache: map[uintptr]string{}, DisabledSites: map[string]bool{}}
 	rpc.SimNewPool = func() func(target string) (rpc.SimConn, error) {
 		tag := runtime.SimTag()
 		w.mu.Lock()
@@ -184,7 +185,13 @@ func (w *World) yield(pc uintptr) {
 	}
 	w.R.Count("yield", 1)
 	w.R.Count("yield@"+site, 1)
+	w.yieldMu.Lock()
+	w.parked[ep.Name]++
+	w.yieldMu.Unlock()
 	time.Sleep(d)
+	w.yieldMu.Lock()
+	w.parked[ep.Name]--
+	w.yieldMu.Unlock()
 }
 
 // ---------------------------------------------------------------- storage node
@@ -294,3 +301,11 @@ func (n *SimNode) Crash(newDir string, powerLoss bool, pageSize int) (string, *i
 }
 
 var _ = wal.InvalidOffset
+
+// Parked tells how many goroutines of a node are currently parked at a yield point, i.e. in
+// the middle of an operation.
+func (w *World) Parked(node string) int {
+	w.yieldMu.Lock()
+	defer w.yieldMu.Unlock()
+	return w.parked[node]
+}
